@@ -86,6 +86,31 @@ def lock_panics(ctx, rule, prog, inv, exceptions):
     return regs
 
 
+def support_obligations(ctx, prog, seen):
+    """premises that the triaged exceptions lean on, re-derived from the code (ctecheck/support.py)"""
+    from .. import support as S
+    # `polygon[0]`, `poly.len() - 1` in the ray tracer: every Occluder is built from a non-empty polygon
+    res = S.occluder_polygons_nonempty(prog)
+    ctx.floor("c14.support", "Occluder construction sites", len(res), 1)
+    for ok, loc, g, disp, why in res:
+        key = sanitize("c14.support|occluder-polygon|%s|%s" % (disp, g))
+        if ok:
+            ctx.ok("c14.support", key, "occluder polygon is non-empty: %s" % why, loc)
+        else:
+            ctx.violation("c14.support", key, "an Occluder can be built from an empty polygon (%s): `polygon[0]` in Ray::intersects_with_data and `poly.len() - 1` in "
+                          "point_in_poly then panic inside energy_indicators (the exceptions for those sites assume non-empty occluder polygons)" % why, loc)
+    # the asserts of nday_from_md: only called with (month, day) of the built-in July table
+    nd = prog.find("climate::solar::nday_from_md")
+    res = S.table_fed_calls(prog, seen, nd.id, "JULYRADDATA")
+    for ok, loc, disp, descs in res:
+        key = sanitize("c14.support|nday-args|%s" % disp)
+        if ok:
+            ctx.ok("c14.support", key, "nday_from_md is called with (month, day) read from JULYRADDATA rows", loc)
+        else:
+            ctx.violation("c14.support", key, "nday_from_md(%s) is called with values that are not rows of the built-in July table: its range asserts and "
+                          "`MONTH_DAYS[..month - 1]` can panic" % ", ".join(d[:50] for d in descs), loc)
+
+
 def run(ctx):
     prog = ctx.prog
     inv = Inventory(prog, ctx.cg)
@@ -95,6 +120,7 @@ def run(ctx):
     ctx.floor("c14.reach", "reachable bodies", len(seen), 400)
     ctx.floor("c14.panic", "classified may-panic sites", len(sites), 60)
     report_sites(ctx, "c14.panic", sites, C14_EXCEPTIONS, seen)
+    support_obligations(ctx, prog, seen)
     nloops = report_loops(ctx, "c14.loop", prog, seen, lambda f: in_scope(f, prog), C14_LOOP_EXCEPTIONS, CUSTOM_ITER_OK)
     ctx.floor("c14.loop", "loops classified", nloops, 20)
     for comp in recursion_cycles(ctx.cg, seen):
